@@ -102,6 +102,8 @@ impl Plan {
 }
 
 const RLIMIT: u64 = 6 << 30;
+/// CPU-time budget of one decoder call (decode + re-encode + drop) on <= 4 KiB of input
+const SMALL_INPUT_CPU_MS: u64 = 10_000;
 
 #[derive(Debug, Default, Clone)]
 struct Outcome {
@@ -111,6 +113,8 @@ struct Outcome {
     pulls_p: u64,
     pulls_w: u64,
     peak: usize,
+    /// thread CPU time of the call (decode + re-encode + drop), milliseconds
+    cpu_ms: u64,
     biggest: usize,
     nodes: usize,
     dup_free: bool,
@@ -186,6 +190,7 @@ fn has_disconnect_branch(program: &[u8], family: Family) -> bool {
 fn decode_job(plan: Plan) -> Outcome {
     let mut o = Outcome::default();
     let start = alloc::reset();
+    let cpu0 = crate::sup::thread_cpu_secs();
     let r = guard(|| {
         let (ps, pp) = SimStream::new(plan.program.clone());
         let (ws, wp) = SimStream::new(plan.witness.clone());
@@ -287,6 +292,7 @@ fn decode_job(plan: Plan) -> Outcome {
         (accepted, err, viol, pp.get(), wp.get(), nodes, dup_free)
     });
     let (peak, biggest) = alloc::peak_since(start);
+    o.cpu_ms = ((crate::sup::thread_cpu_secs() - cpu0) * 1000.0) as u64;
     o.peak = peak;
     o.biggest = biggest;
     match r {
@@ -312,6 +318,16 @@ fn decode_job(plan: Plan) -> Outcome {
                 "T1-pulls".into(),
                 format!("{}:stream-over-pulled", plan.decoder.name()),
                 format!("program {} bytes pulled {} times, witness {} bytes pulled {} times", lp, o.pulls_p, lw, o.pulls_w),
+            ));
+        }
+        // "never hangs", scaled: a call on at most 4 KiB of delivered input gets 10 s of thread
+        // CPU time (measured maximum on the unchanged tree under full load: 0.4 s); longer calls
+        // on larger inputs are left to the watchdog
+        if lp + lw <= 4096 && o.cpu_ms > SMALL_INPUT_CPU_MS {
+            o.viol = Some((
+                "T1-time".into(),
+                format!("{}:slow-on-small-input", plan.decoder.name()),
+                format!("{} ms of CPU time for {}+{} input bytes; budget {} ms", o.cpu_ms, lp, lw, SMALL_INPUT_CPU_MS),
             ));
         }
         let budget = HEAP_CONST + HEAP_PER_BYTE * (plan.program.len() + plan.witness.len());
@@ -532,6 +548,10 @@ impl C02 {
         }
         out.gauge_max("max_peak_heap_bytes", o.peak as u64);
         out.gauge_max("max_single_alloc_bytes", o.biggest as u64);
+        out.gauge_max("max_cpu_ms_per_call", o.cpu_ms);
+        if plan.program.len() + plan.witness.len() <= 4096 {
+            out.gauge_max("max_cpu_ms_per_call_input_le_4KiB", o.cpu_ms);
+        }
         out.gauge_max("max_nodes_decoded", o.nodes as u64);
         let ratio = (o.peak as u64) / (plan.program.len() as u64 + plan.witness.len() as u64 + 64);
         out.gauge_max("max_peak_heap_per_input_byte", ratio);
@@ -679,7 +699,7 @@ impl Engine for C02 {
             return;
         }
         // ---- choose the base encoding
-        let kind = r.weighted(&[60, 6, 8, 6, 10, 6, 3, 3]);
+        let kind = r.weighted(&[60, 6, 8, 6, 10, 6, 6, 3]);
         let (program, witness, origin): (Vec<u8>, Vec<u8>, String) = match kind {
             0 => {
                 let size = match r.below(4) {
@@ -769,9 +789,65 @@ impl Engine for C02 {
                 // source-type bomb: commitment-time bytes + an arbitrary witness stream. The witness
                 // type is up to 2^70 bits wide; the decoder must fail gracefully (no fault-free
                 // round trip here: the program cannot be populated)
-                let rec = programs::source_bomb_recipe(&mut r, family);
+                // every other time a TARGET-type bomb instead: a well-typed constant of up to
+                // 2^76 bits that `unit` swallows; needs no witness data, so the empty witness
+                // stream is a valid redemption (the generator cannot finalise it at redemption
+                // time itself, hence the commitment-time bytes here too)
+                if r.chance(1, 3) {
+                    // ILL-TYPED bomb, hand assembled: a leaf whose type is still free, squared k
+                    // times (an incomplete type that is a DAG of k nodes and a tree of 2^k), then
+                    // composed with something it cannot be: the decoder must reject it, and the
+                    // rejection (the error value it builds, returns and drops) must cost what the
+                    // DAG costs, not what the tree costs
+                    use crate::engines::asm::ANode as A;
+                    let k = r.urange(12, 46);
+                    let mut nodes = vec![if r.bool() { A::Iden } else { A::Witness }];
+                    for i in 0..k {
+                        nodes.push(match r.below(4) {
+                            0 if i > 0 => A::Pair(i, i - 1),
+                            _ => A::Pair(i, i),
+                        });
+                    }
+                    let top = k;
+                    // clash partner: wants a sum where the bomb is a product, or a product of a
+                    // sum where the bomb has a product of products
+                    let n = nodes.len();
+                    match r.below(3) {
+                        0 => {
+                            nodes.push(A::Unit);
+                            nodes.push(A::Case(n, n));
+                            nodes.push(A::Comp(top, n + 1));
+                        }
+                        1 => {
+                            nodes.push(A::Unit);
+                            nodes.push(A::InjL(n));
+                            nodes.push(A::Case(n + 1, n + 1));
+                            nodes.push(A::Take(n + 2));
+                            nodes.push(A::Comp(top, n + 3));
+                        }
+                        _ => {
+                            nodes.push(A::Unit);
+                            nodes.push(A::Case(n, n));
+                            nodes.push(A::Pair(top, n + 1));
+                        }
+                    }
+                    if let Some(p) = crate::engines::asm::assemble(&nodes, None) {
+                        out.count("ill_typed_bomb_bases", 1);
+                        let o = self.deliver(family, &p, &[], "ill-typed incomplete type bomb (assembler)", &["hand_assembled"], &mut r, out, true, false, None);
+                        if o.accepted {
+                            out.count("ill_typed_bomb_accepted", 1);
+                        }
+                    }
+                    return;
+                }
+                let target = r.bool();
+                let rec = if target { programs::target_bomb_recipe(&mut r, family) } else { programs::source_bomb_recipe(&mut r, family) };
                 match programs::build_commit_bytes(&rec) {
                     Some(p) => {
+                        if target {
+                            out.count("target_bomb_bases", 1);
+                            self.deliver(family, &p, &[], "target-type bomb + empty witness", &[], &mut r, out, true, false, None);
+                        }
                         out.count("source_bomb_bases", 1);
                         for _ in 0..6 {
                             let m = r.urange(0, 40);
@@ -881,6 +957,9 @@ impl Engine for C02 {
             "heap_budget": format!("{} + {} x delivered bytes", HEAP_CONST, HEAP_PER_BYTE),
             "measured_max_peak_heap_bytes": c.get("max_peak_heap_bytes").copied().unwrap_or(0),
             "measured_max_single_alloc_bytes": c.get("max_single_alloc_bytes").copied().unwrap_or(0),
+"cpu_budget_small_inputs": format!("{} ms of thread CPU time per call on <= 4096 delivered bytes", SMALL_INPUT_CPU_MS),
+            "measured_max_thread_cpu_ms_per_call": c.get("max_cpu_ms_per_call").copied().unwrap_or(0),
+            "measured_max_thread_cpu_ms_per_call_input_le_4KiB": c.get("max_cpu_ms_per_call_input_le_4KiB").copied().unwrap_or(0),
         })
     }
 }
